@@ -162,17 +162,18 @@ pub fn run(ctx: &Ctx) -> Report {
     // corpus: D6 — intact compress-only archive repaired from a one-byte-at-a-time source
     {
         let cfg = Cfg { layers: L_COMP, level: 5, recipients: vec![], reader: 0 };
-        let ops = vec![Op::Add { name: "a".into(), size: 3000, src: rng.bytes(3000, 2) }, Op::Finalize];
+        let sz = if CONSTS.scaled { 3 * CONSTS.block + 7 } else { 3000 };
+        let ops = vec![Op::Add { name: "a".into(), size: sz as u64, src: rng.bytes(sz, 2) }, Op::Finalize];
         check(&mut rep, &mut model, &cfg, &ops, 1, &mut rng);
     }
-    let n = ctx.budget(60, 1200);
+    let n = if CONSTS.scaled { ctx.budget(1200, 20000) } else { ctx.budget(90, 1200) };
     for i in 0..n {
         let cfg = Cfg::make(&mut rng, (i % 4) as u8);
-        let o = GenOpts { max_files: 4, max_piece: CONSTS.chunk.min(200_000) + 300, max_total: if i % 10 == 9 { 5 << 20 } else { 300_000 }, long_name_chance: (0, 1), flushes: true };
+        let o = GenOpts { max_files: 4, max_piece: if CONSTS.scaled { 2 * CONSTS.block } else { CONSTS.chunk.min(200_000) + 300 }, max_total: if CONSTS.scaled { 6 * CONSTS.block } else if i % 10 == 9 { 5 << 20 } else { 300_000 }, long_name_chance: (0, 1), flushes: true };
         let ops = gen_valid_ops(&mut rng, &o);
         let kind = (i / 4 % 6) as u8;
         // one byte at a time over megabytes is slow in debug builds: keep those cases small
-        let ops = if kind == 1 { let o2 = GenOpts { max_files: 3, max_piece: 5000, max_total: 20_000, long_name_chance: (0, 1), flushes: true }; gen_valid_ops(&mut rng, &o2) } else { ops };
+        let ops = if kind == 1 && !CONSTS.scaled { let o2 = GenOpts { max_files: 3, max_piece: 5000, max_total: 20_000, long_name_chance: (0, 1), flushes: true }; gen_valid_ops(&mut rng, &o2) } else { ops };
         let ok = check(&mut rep, &mut model, &cfg, &ops, kind, &mut rng);
         if i < 2 && ok { rep.sample(json!({"archive": case_json(&cfg, &ops, false), "schedule": kind})); }
         if rep.full() { break; }
